@@ -10,6 +10,7 @@ MODULES = {
     "C12": "props_stream",
     "C18": "props_c18",
     "C17": "props_c17",
+    "C15": "props_c15",
     "C13": "props_struct", "C14": "props_struct", "C16": "props_struct", "C19": "props_struct",
     "C09": "props_hist", "C10": "props_hist",
     "C05": "props_opt", "C06": "props_opt", "C07": "props_opt",
